@@ -4,15 +4,15 @@ from translators import tr_c16
 
 PID = "C16"
 CLAIM = True
-MANIFEST_TEXT = ("Lean 4 theorems (49) over a model in which an iterator is (container, position) and every public operator is derived "
+MANIFEST_TEXT = ("Lean 4 theorems (51) over a model in which an iterator is (container, position) and every public operator is derived "
                  "exactly as iteratorfacades.hh derives it (legacy Forward/Bidirectional/RandomAccess facades incl. both "
                  "is_convertible branches, the new IteratorFacade over a base iterator incl. its derived()+=1 branch, the "
                  "hand-written IntegralRangeIterator, IndexedIterator, the pointer chasing SLList iterators): ++/-- inverse, "
                  "it+n / it+=n / it[n] = n single steps, every HISTORY of stepping operators = one advance by the net "
                  "displacement, (a+n)-a = n, the machine difference of IntegralRangeIterator = the true difference whenever "
                  "representable (and the true one modulo 2^bits otherwise), the six comparisons = position order (a strict order; for the "
-                 "IntegralRangeIterator for EVERY width of the integral type and any distance of the two positions, for a "
-                 "transformed range over an integral range wherever difference_type holds the distance - finding F1, _partial), "
+                 "IntegralRangeIterator and for the iterators of a transformed range over an integral range for EVERY width of the "
+                 "integral type and any distance of the two positions - the latter after repair C16_facade_order_by_base), "
                  "const/mutable equality; IntegralRange "
                  "/ StaticIntegralRange enumerate from..to-1 (loops proved for every sufficient fuel), transformed ranges apply "
                  "f once per element in order, sparse ranges pair entries with indices, static and dynamic Hybrid::size/"
@@ -27,9 +27,8 @@ MANIFEST_NOTE = ("Trusted: Lean kernel (+propext/Classical.choice/Quot.sound), t
                  "selection (which facade operator / Hybrid overload the compiler picks) is a compile-time fact the model "
                  "takes as given; integer wrap-around is modelled where the operator bodies form a difference of iterators or cast "
                  "to difference_type (E.wsub, width taken from the iterator kind); values, positions and step counts inside a "
-                 "range are representable in its type by construction.  Open finding F1: the new IteratorFacade orders by the "
-                 "machine difference, so iterators of a transformed range over an integral range with more than "
-                 "max(difference_type) elements compare inverted (model and run follow the code; theorem _partial).")
+                 "range are representable in its type by construction.  The model describes the code after "
+                 "fixes/C16_facade_order_by_base.patch (IteratorFacade < <= > >= forwarded to comparable base iterators).")
 TECHNIQUE = ("Lean 4 proof over facade-derivation model whose operator bodies are translated from the headers on every run + "
              "differential correspondence on all library iterator kinds (single expressions and operation histories) with "
              "integer-position oracle")
@@ -69,11 +68,12 @@ ASSUMPTIONS = [
     "iterators of std::vector/std::list/std::forward_list used as base iterators behave as positions (trusted libstdc++)",
     "values and step counts inside a range are representable in its value/difference type; wrap-around is modelled for the "
     "difference of two IntegralRangeIterators and for differences/casts to difference_type inside their comparison bodies "
-    "(E.wsub); the order of transformed-range iterators over an integral range is judged by the oracle only where "
-    "difference_type holds the distance (finding F1, theorem nf_over_integral_range_rel_ops_partial)",
+    "(E.wsub)",
     "which overload / is_convertible branch the compiler selects for a kind is tabulated in the driver (kinfo), not derived",
     "the model describes the repaired IntegralRangeIterator (fixes/C16_integralrange_strict_order.patch, applied to /repo as 781d470: "
-    "< and > strict; fixes/C16_integralrange_diff_overflow.patch: difference formed in the unsigned type)",
+    "< and > strict; fixes/C16_integralrange_diff_overflow.patch: difference formed in the unsigned type) and the repaired "
+    "IteratorFacade (fixes/C16_facade_order_by_base.patch: < <= > >= compare the base iterators where the derived class "
+    "exports comparable ones)",
     "SLList nodes have pairwise distinct addresses (hypothesis Nodup of sll_iterator_is_position)",
 ]
 TRUSTED = ["g++/libstdc++, ASan/UBSan", "tools/translators/tr_c16.py (reading of one-line operator bodies)", "harness/cxx_c16.cc (type-erased law checker, integer oracle) + Driver/C16.lean parsing/printing"]
